@@ -481,7 +481,8 @@ theorem PlainRun.pos_le {l l' : Lexer} {lc lc' : Int} (h : PlainRun l lc l' lc')
 theorem lexText_cut_open {l l' l1 : Lexer} {lc lc' : Int} (hrun : PlainRun l lc l' lc')
     (hn : l'.next = some (123, l1)) (h0 : 0 ≤ l.start) (h1 : l.start ≤ l.pos) :
     ∃ lf, lexTextLoop l lc = some (some .leftDelim, lf) ∧
-      lf.items.toList = l.items.toList ++ textItems l.input l.start l'.pos ∧ lf.pos = l'.pos ∧ lf.start = l'.pos := by
+      lf.items.toList = l.items.toList ++ textItems l.input l.start l'.pos ∧ lf.pos = l'.pos ∧ lf.start = l'.pos ∧
+      lf.input = l.input := by
   obtain ⟨he, hi, hs, hin, _⟩ := lexTextLoop_run hrun
   have hple := (hrun.pos_le (by omega)).1
   have hf := (next_facts hn (by omega)).2.2
@@ -489,10 +490,10 @@ theorem lexText_cut_open {l l' l1 : Lexer} {lc lc' : Int} (hrun : PlainRun l lc 
   rw [he, lexTextLoop_some hn]
   simp only [show (123 : Int) ≠ 47 by decide, if_false, if_true]
   rw [next_backup hn]
-  obtain ⟨lf, hm, hit, hp, _, hst, heq⟩ := maybeEmitText_items (l := { l' with width := l1.width }) (k := 0)
+  obtain ⟨lf, hm, hit, hp, hinf, hst, heq⟩ := maybeEmitText_items (l := { l' with width := l1.width }) (k := 0)
     (by show 0 ≤ l'.start; omega) (by show l'.pos - 0 ≤ (l'.input.size : Int); simp only [Lexer.len] at hf; omega)
   rw [hm]
-  refine ⟨lf, rfl, ?_, hp, ?_⟩
+  refine ⟨lf, rfl, ?_, hp, ?_, hinf.trans hin⟩
   · rw [hit]; show l'.items.toList ++ textItems l'.input l'.start (l'.pos - 0) = _
     rw [hi, hin, hs, Int.sub_zero]
   · by_cases hlt : l'.start < l'.pos
@@ -681,7 +682,7 @@ theorem lexText_plain_then_open (pre post : Bytes)
     have : l'.len = (initLexer (pre ++ 123 :: post)).len := by simp only [Lexer.len, hin]
     rw [this, hlen, hp']; omega) (by omega)
   rw [hb] at hn
-  obtain ⟨lf, h1, h2, h3, h4⟩ := lexText_cut_open hr hn (by simp [initLexer]) (by simp [initLexer])
+  obtain ⟨lf, h1, h2, h3, h4, _⟩ := lexText_cut_open hr hn (by simp [initLexer]) (by simp [initLexer])
   refine ⟨lf, h1, ?_, by rw [h3, hp'], by rw [h4, hp']⟩
   rw [h2, hp']
   simp [initLexer]
